@@ -52,12 +52,14 @@ def showRes : Res → String
   | .exch => "exch"
   | .notifyErr => "notify"
   | .mismatch => "other"
+  | .storeErr => "storeerr"
 
 /-- events other than `emit`; `ses`: requests go through a session fetcher -/
 def showEvs (ses : Bool) (evs : List Ev) : String :=
   let tag := if ses then "s" else ""
   " ".intercalate (evs.filterMap fun
     | .put b => some s!"put:{showBlk b}"
+    | .putFail b => some s!"putx:{showBlk b}"
     | .reqOne c => some s!"{tag}req:{showCid c}"
     | .reqMany cs => some s!"{tag}reqm:{",".intercalate (cs.map showCid)}"
     | .notify bs => some s!"ntf:{showBlks bs}"
@@ -71,6 +73,24 @@ structure St where
   sesEx : Bool := false
   live : Bool := false
   store : Store := []
+  /-- scripted blockstore write failure: (write calls that still succeed, sticky) -/
+  pfail : Option (Nat × Bool) := none
+
+/-- `pf` argument of the next API call -/
+def St.pf (s : St) : Option Nat := s.pfail.map (·.1)
+
+/-- account for the `calls` blockstore write calls (Put / PutMany) an API call made -/
+def St.after (s : St) (calls : Nat) : St :=
+  match s.pfail with
+  | none => s
+  | some (k, sticky) =>
+    if calls > k then { s with pfail := if sticky then some (0, true) else none }
+    else { s with pfail := some (k - calls, sticky) }
+
+/-- number of write CALLS behind the put events of a trace (`many`: one PutMany call for all of them) -/
+def writeCalls (many : Bool) (evs : List Ev) : Nat :=
+  let n := (evs.filter fun | .put _ => true | .putFail _ => true | _ => false).length
+  if many then min n 1 else n
 
 def vrow (al : Allowlist) (code : Nat) : String :=
   String.ofList ((List.range 257).map fun len =>
@@ -89,6 +109,11 @@ def step (fixed : Bool) (s : St) (ln : String) : St × String :=
       ({ cfg := { al := al, checkFirst := cf == "1", hasEx := ex != "0", fixed := fixed }, sesEx := ex == "2",
          live := true, store := [] }, "ok")
     | none => (s, "bad-op")
+  | ["putfail", "-"] => if s.live then ({ s with pfail := none }, "ok") else (s, "bad-op")
+  | ["putfail", k, sticky] =>
+    match k.toNat?, s.live with
+    | some k, true => ({ s with pfail := some (k, sticky == "1") }, "ok")
+    | _, _ => (s, "bad-op")
   | ["vrow", code] =>
     match code.toNat? with
     | some code => (s, vrow s.cfg.al code)
@@ -99,20 +124,20 @@ def step (fixed : Bool) (s : St) (ln : String) : St × String :=
   | ["add", b] =>
     match parseBlk b with
     | some b =>
-      let (st, r, evs) := addBlock s.cfg s.store b
-      ({ s with store := st }, line (showRes r) false evs)
+      let (st, r, evs) := addBlock s.cfg s.store b s.pf
+      ({ s with store := st }.after (writeCalls false evs), line (showRes r) false evs)
     | none => (s, "bad-op")
   | "addmany" :: bs =>
     match bs.mapM parseBlk with
     | some bs =>
-      let (st, r, evs) := addBlocks s.cfg s.store bs
-      ({ s with store := st }, line (showRes r) false evs)
+      let (st, r, evs) := addBlocks s.cfg s.store bs s.pf
+      ({ s with store := st }.after (writeCalls true evs), line (showRes r) false evs)
     | none => (s, "bad-op")
   | ["get", mode, c, ans, nOk] =>
     match parseCid c, (if ans == "err" then some none else (parseBlk ans).map some) with
     | some c, some ans =>
-      let (st, r, evs) := getBlock s.cfg s.store c ans (nOk != "0")
-      ({ s with store := st }, line (showRes r) (ses mode) evs)
+      let (st, r, evs) := getBlock s.cfg s.store c ans (nOk != "0") s.pf
+      ({ s with store := st }.after (writeCalls false evs), line (showRes r) (ses mode) evs)
     | _, _ => (s, "bad-op")
   | "getmany" :: mode :: nf :: rest =>
     let ks := rest.takeWhile (· ≠ "|")
@@ -121,8 +146,8 @@ def step (fixed : Bool) (s : St) (ln : String) : St × String :=
     let ans := if ans == ["err"] then some none else (ans.mapM parseBlk).map some
     match ks.mapM parseCid, ans, nf with
     | some ks, some ans, some nf =>
-      let (st, evs) := getBlocks s.cfg s.store ks ans nf
-      ({ s with store := st }, line "done" (ses mode) evs)
+      let (st, evs) := getBlocks s.cfg s.store ks ans nf s.pf
+      ({ s with store := st }.after (writeCalls false evs), line "done" (ses mode) evs)
     | _, _, _ => (s, "bad-op")
   | ["del", c] =>
     match parseCid c with
